@@ -23,7 +23,7 @@ def sh(cmd, cwd=None, env=None, timeout=3600):
 
 
 def main():
-    src, sid, checks = sys.argv[1], sys.argv[2], sys.argv[3:]
+    src, sid, checks = os.path.abspath(sys.argv[1]), sys.argv[2], sys.argv[3:]
     keep = '--no-store' not in checks
     checks = [c for c in checks if not c.startswith('--')]
     S = '/var/tmp/seed_%d' % os.getpid()
@@ -61,14 +61,25 @@ def main():
         if keep and valid:
             d = os.path.join(VERIF, 'seeded', sid)
             os.makedirs(d, exist_ok=True)
-            shutil.copy(os.path.join(src, 'patch.diff'), d)
-            shutil.copy(demo, d)
+            same_dir = os.path.realpath(src) == os.path.realpath(d)
+            if not same_dir:
+                shutil.copy(os.path.join(src, 'patch.diff'), d)
+                shutil.copy(demo, d)
             if os.path.exists(os.path.join(src, 'notes.md')):
-                shutil.copy(os.path.join(src, 'notes.md'), d)
+                if not same_dir:
+                    shutil.copy(os.path.join(src, 'notes.md'), d)
                 meta['needs_to_manifest'] = open(os.path.join(src, 'notes.md')).read()[:1500]
             meta['what_was_run'] = ['demo.py on clean copy and on patched copy', 'pinned suite on patched copy (pytest -n 8)',
                                     'quick checks with VERIF_REPO=<patched scratch copy>: ' + ' '.join(checks)]
-            json.dump(meta, open(os.path.join(d, 'meta.json'), 'w'), indent=1)
+            old_meta = os.path.join(d, 'meta.json')
+            if os.path.exists(old_meta):
+                try:
+                    om = json.load(open(old_meta))
+                    if 'note' in om:
+                        meta['note'] = om['note']
+                except Exception:
+                    pass
+            json.dump(meta, open(old_meta, 'w'), indent=1)
         return 0
     finally:
         shutil.rmtree(S, ignore_errors=True)
